@@ -126,14 +126,27 @@ int chunks_from_temp(zckCtx *zck) {
        return false;
     }
 
+    size_t copied = 0;
     while((read_count = read(zck->temp_fd, data, BUF_SIZE)) > 0) {
         if(!write_data(zck, zck->fd, data, read_count)) {
             free(data);
             return false;
         }
+        copied += read_count;
     }
     free(data);
-    if(read_count == -1)
+    if(read_count == -1) {
+        set_fatal_error(zck, "Error reading temporary file: %s",
+                        strerror(errno));
         return false;
+    }
+    /* The index was written from what went into the temporary file, so
+     * anything less means the body is incomplete */
+    if(copied != zck->index.length) {
+        set_fatal_error(zck, "Temporary file holds %llu bytes instead of %llu",
+                        (long long unsigned) copied,
+                        (long long unsigned) zck->index.length);
+        return false;
+    }
     return true;
 }
